@@ -551,11 +551,13 @@ class Gen:
         self.list_pages = set()
         pages = []     # (id, path)
         page_js = []
-        npages = rng.choice([0, 1, 1, 2, 3])
+        npages = rng.choice([0, 1, 1, 2, 2, 3, 3, 4])
         page_secs = []
         for n in range(npages):
             pid = 'P%d' % (n + 1)
-            paths[pid] = choose(pid, pid + '.html', ['pages/sub/p%d.html' % n, 'x/y/z/%s.html' % pid.lower(), 'asm/p%d.html' % n])
+            # at the root, one level down, three levels down, next to the disassembly pages
+            paths[pid] = choose(pid, pid + '.html', ['pages/p%d.html' % n, 'pages/sub/p%d.html' % n, 'x/y/z/%s.html' % pid.lower(),
+                                                     'asm/p%d.html' % n, posixpath.join(paths['CodePath'], 'page%d.html' % n)], 0.6)
             pages.append(pid)
             self.link_pages.append(pid)
         boxes = []
@@ -575,16 +577,29 @@ class Gen:
                     self.list_pages.add(pid)
         for code in self.codes[1:]:
             self.link_pages.append(code['id'] + '-Index')
+        # page-specific JavaScript (ref-files.rst [Page:*] JavaScript: used in addition to the [Game] files, copied to
+        # JavaScriptPath, referenced relative to the page's own directory): a short list of values per site, so that
+        # pages in different directories get identical lists, overlapping lists, a file the [Game] section names too, or none
+        pool = ['notes.js', 'pg/extra.js'] + js[:1]
+        for x in pool[:2]:
+            self.resources[x] = ('src', b'//\n')
+        values = []
+        for _ in range(rng.choice([1, 2, 2, 3])):
+            v = rng.sample(pool, rng.randint(1, len(pool)))
+            values.append(';'.join(v))
+        page_jsval = {}
+        for pid in pages:
+            if rng.random() < 0.65:
+                page_jsval[pid] = rng.choice(values)
+                page_js.extend(posixpath.basename(x) for x in page_jsval[pid].split(';'))
+        page_js = sorted(set(page_js))
 
         # ---- render the ref file (texts last, when all link targets are known) ----
         for n in range(npages):
             pid = 'P%d' % (n + 1)
             sec = ['[Page:%s]' % pid]
-            if js and rng.random() < 0.3:
-                pj = 'p%d.js' % n
-                self.resources[pj] = ('src', b'//\n')
-                sec.append('JavaScript=%s' % pj)
-                page_js.append(pj)
+            if pid in page_jsval:
+                sec.append('JavaScript=' + page_jsval[pid])
             sec.append('PageContent=' + ' '.join(self.text(0) for _ in range(rng.randint(1, 3))))
             page_secs.append('\n'.join(sec))
         for pid, prefix, anchors, stype in boxes:
@@ -592,7 +607,13 @@ class Gen:
                 sec = ['[Page:Bx]', 'SectionPrefix=Sx']
                 if stype:
                     sec.append('SectionType=' + stype)
+                if pid in page_jsval:
+                    sec.append('JavaScript=' + page_jsval[pid])
                 page_secs.append('\n'.join(sec))
+            elif pid in page_jsval:
+                # the predefined box page, declared again with its default parameters plus the scripts
+                sec = ['[Page:%s]' % pid, 'SectionPrefix=' + prefix] + ['SectionType=ListItems'] * (pid == 'Changelog')
+                page_secs.append('\n'.join(sec + ['JavaScript=' + page_jsval[pid]]))
             for k, an in enumerate(anchors):
                 head = '[%s:%s:Title %d of %s]' % (prefix, an, k, pid)
                 if stype in ('ListItems', 'BulletPoints'):
@@ -661,7 +682,8 @@ class Gen:
             res.append(j(jspath, posixpath.basename(x)))
         if 'P' in wflags:
             for x in page_js:
-                res.append(j(jspath, x))
+                if j(jspath, x) not in res:
+                    res.append(j(jspath, x))
         if font:
             res.append(j(fontpath, font))
         for n, (k, _) in self.resources.items():
@@ -690,7 +712,8 @@ class Gen:
         S['tla'] = tla
         S['meta'] = dict(single=single, runs=runs, opts=opts, anchor=atext, codefiles=ftext, ncodes=len(self.codes),
                          paths=P, join_css=join_css, theme=theme, game=game, ranchors=self.ranchors,
-                         late_eps=[c['late'] for c in self.codes], ndirectives=[len(c['rdirs']) for c in self.codes],
+                         late_eps=[c['late'] for c in self.codes],
+                         page_js={pid: [paths[pid], v] for pid, v in page_jsval.items()}, global_js=js, ndirectives=[len(c['rdirs']) for c in self.codes],
                          remotes=[sorted({a for decl in c['remotes'].values() for ea, pts in decl for a in [ea] + pts})
                                   for c in self.codes])
         # a generated site must not map two documents to one path (that would be an input error, not a finding)
